@@ -15,6 +15,8 @@ Node specs (lists, so they survive a JSON round trip):
   ["PY", kids]                   plain python list of children (nested-list argument)
   ["TU", kids]                   tuple of children
   ["NONE"]                       None
+  ["DI", info]                   HTMLDependency from a depinfo dict (hv/ref/deps.py)
+  ["HC", kids]                   head_content(*kids)
   ["OBJ"] ["DICT"] ["SET"] ["BYTES"]   values of unsupported type (object(), {"a":1}, {1}, b"x")
   ["GEN", kids]                  generator yielding the children
 attribute value specs:  str | int | float | True | False | None | ["H", markup]
@@ -177,6 +179,12 @@ def build(spec: Any) -> Any:
         return b"x"
     if k == "GEN":
         return (build(c) for c in spec[1])
+    if k == "DI":
+        from .ref.deps import build_dep as _bd
+        return _bd(spec[1])
+    if k == "HC":
+        from htmltools import head_content
+        return head_content(*[build(c) for c in spec[1]])
     if k == "J":
         return build_jsx(spec)
     if k == "JX":
